@@ -49,6 +49,20 @@ CHECKS = {
         "statement. Scale of the base symbols themselves is C02's business.",
         "DESIGN.md section 6 C14",
     ),
+    "C08": (
+        "exhaustive enumeration of all ordered pairs of temperature spellings x operations x call forms "
+        "against an affine reference model in kelvin",
+        "All 72x72 ordered pairs of temperature spellings (K, R, degC, degF, delta units, every SI prefix where "
+        "allowed) are combined by + and - in operator, ufunc, out=, in-place and outer form and converted on five "
+        "routes; every multiplicative and power operation is applied to every offset-scale spelling; diff, ediff1d "
+        "and ptp to every spelling. Each returned value is compared with affine arithmetic done in kelvin and "
+        "each returned label with the kind (point/difference) the statement fixes. The pair table is visited "
+        "cell by cell, so an asymmetric mislabel cannot hide.",
+        "Reference: 30-line affine model (scale, zero point, point/difference kind) typed from the definitions of "
+        "the scales. point+point on one scale and difference-point are not demanded by the statement and are "
+        "only recorded.",
+        "DESIGN.md section 6 C08",
+    ),
     "C12": (
         "explicit-state BFS over registry-edit/cache-seeding histories on the real code, "
         "warm-vs-cold-vs-reference differential in every state",
